@@ -126,12 +126,29 @@ fn gen_history(tape: &[u8], allow_failing: bool, stats: &mut GenStats) -> Option
         bad_schema = vec!["d1/missing.graphql".into(), "d1/broken.graphql".into(), "d1/broken.json".into(), "d1/schema.txt".into()];
         bad_query = vec!["d2/broken_query.graphql".into(), "d2/missing_query.graphql".into(), "d2/anonymous_query.graphql".into(), "d2/unknown_variable_type.graphql".into(), "d2/no_type_condition.graphql".into()];
     }
+    if allow_failing {
+        // documents that load, parse and bind against schema A but are rejected by a later
+        // validation (no `__typename` on an abstract selection, a second subscription root,
+        // a type condition that can never apply): the same error every time, also when repeated
+        let late: Vec<(String, String)> = super::c06::invalid_documents(&a.world.schema, &a.world.doc)
+            .into_iter()
+            .filter(|(r, _)| matches!(r.as_str(), "missing_typename" | "subscription_multiple_roots" | "impossible_type_condition" | "subscription_multiple_roots_via_spread"))
+            .collect();
+        if !late.is_empty() {
+            let (_, text) = t.pick(&late).clone();
+            files.push(("d3/unanswerable.graphql".into(), Some(text)));
+            for _ in 0..2 {
+                good_pairs.push((format!("d1/schema.{}", ext_a), "d3/unanswerable.graphql".into()));
+            }
+            good_pairs.push((format!("d2/copy_of_schema.{}", ext_a), "d3/unanswerable.graphql".into()));
+        }
+    }
     good_pairs.rotate_left(t.below(5));
     let n_calls = t.range(5, 40);
     let mut calls = Vec::new();
     for _ in 0..n_calls {
         let (mut sp, mut qp) = t.pick(&good_pairs).clone();
-        let mut failing = false;
+        let mut failing = qp == "d3/unanswerable.graphql";
         if allow_failing && t.chance(20) {
             failing = true;
             if t.chance(60) {
@@ -310,7 +327,7 @@ fn from_replay(v: &Value) -> Option<HistoryCase> {
 }
 
 pub fn run(report: &mut Report, replay: Option<&Value>) {
-    report.rule = "a directory tree of schema / query files (same content under two paths, different content under the same base name in two directories; probe family: missing path, unparsable SDL / JSON / query, unsupported extension) and a history of 5-40 calls over them (generate_module_token_stream with a query path and ..._from_string, random options), executed in one fresh process sequentially or partitioned over 2/4/8/16 threads released by a barrier. Oracle: every call's outcome (Ok(tokens) / Err(text) / Panic(message)) equals the outcome of the same call made alone in a fresh process (memoised per distinct call). Non-trivial: the history has a failing call, or >= 4 threads, or >= 10 calls; distinct by (history, call index).".into();
+    report.rule = "a directory tree of schema / query files (same content under two paths, different content under the same base name in two directories; probe family: missing path, unparsable SDL / JSON / query, unsupported extension, documents that bind but fail a later validation) and a history of 5-40 calls over them (generate_module_token_stream with a query path and ..._from_string, random options), executed in one fresh process sequentially or partitioned over 2/4/8/16 threads released by a barrier. Oracle: every call's outcome (Ok(tokens) / Err(text) / Panic(message)) equals the outcome of the same call made alone in a fresh process (memoised per distinct call). Non-trivial: the history has a failing call, or >= 4 threads, or >= 10 calls; distinct by (history, call index).".into();
     report.assumptions = vec![
         "thread schedules are sampled by stress (barrier release), not enumerated; with the one-lock design outcomes are functions of file contents, so a data race that leaves outputs unchanged would not be seen".into(),
         "files are not modified between calls (outside the quantifier)".into(),
